@@ -5,7 +5,9 @@
    always   - devices are shut down also when not connected;
    separate - mixers and thermostats are shut down separately (not merged by index);
    cancel_all - TaskManager.cancel_tasks() cancels every registered task (the pinned all() over a generator stops
-              at the first task whose cancel() returns False). *)
+              at the first task whose cancel() returns False);
+   recancel - the connection's tasks are cancelled again after protocol.shutdown() (the pinned close() cancels them only
+              before it, so a reconnect attempt scheduled by a loss handled during the shutdown survives). *)
 From Coq Require Import NArith List Bool Arith.
 From PV Require Import Generated.Tables.
 Import ListNotations.
@@ -43,7 +45,8 @@ Fixpoint cancel_tasks (cancel_all : bool) (walk : list bool) : list bool :=
 Definition running (l : list bool) : nat := length (filter (fun b => b) l).
 
 (* walk = the connection's registered tasks (reconnect attempts) in the order close() meets them *)
-Definition close (bounded always separate cancel_all : bool) (walk : list bool) (s : cstate) : cresult :=
+(* late = reconnect attempts scheduled while the protocol shuts down (a connection loss detected as close() is issued) *)
+Definition close (bounded always separate cancel_all recancel : bool) (walk : list bool) (late : nat) (s : cstate) : cresult :=
   let idle := Nat.eqb (s_queued s) 0 && Nat.eqb (s_unread s) 0 in
   let waits := if bounded then s_connected s && negb idle else negb idle in
   let drains := s_connected s && s_talking s in        (* a live producer with a talking controller empties the queues *)
@@ -53,7 +56,7 @@ Definition close (bounded always separate cancel_all : bool) (walk : list bool) 
   let hidden := if separate then 0%nat
                 else sum_tasks (filter (fun m => existsb (fun t => Nat.eqb (fst t) (fst m)) (s_thermostats s)) (s_mixers s)) in
   mkCR returns seconds
-       (if returns then Nat.add (running (cancel_tasks cancel_all walk))
+       (if returns then Nat.add (Nat.add (running (cancel_tasks cancel_all walk)) (if recancel then 0%nat else late))
                                 (if shut then hidden else Nat.add (s_dev_tasks s) (Nat.add (sum_tasks (s_mixers s)) (sum_tasks (s_thermostats s))))
         else 0%nat)
        true.
